@@ -439,25 +439,24 @@ example : exB.slots 1 = some ⟨some 0, true⟩ ∧ check exB (.mvS 4 1) = none 
 theorem Blk.exchangeRep_slots (d n : Nat) (s : State) (w : Nat) (W' : SVar)
     (h : (exchangeRep d n s).slots w = some W') :
     ∃ W, s.slots w = some W ∧ W'.blocked = W.blocked ∧ (w ≠ d → W' = W) ∧ (w = d → W'.rep = some n) := by
+  have key : ∀ s0 : State, s0.slots = s.slots →
+      (s0.modSlot d fun D => { D with rep := some n }).slots w = some W' →
+      ∃ W, s.slots w = some W ∧ W'.blocked = W.blocked ∧ (w ≠ d → W' = W) ∧ (w = d → W'.rep = some n) := by
+    intro s0 hs0 h0
+    rw [modSlot_slots, hs0] at h0
+    split at h0
+    · rename_i hw
+      subst hw
+      rw [Option.map_eq_some_iff] at h0
+      obtain ⟨W, hW, hW'⟩ := h0
+      subst hW'
+      exact ⟨W, hW, rfl, fun h => absurd rfl h, fun _ => rfl⟩
+    · rename_i hw
+      exact ⟨W', h0, rfl, fun _ => rfl, fun h => absurd h hw⟩
   unfold exchangeRep at h
-  simp only [] at h
-  rw [modSlot_slots] at h
-  have hm : SlotsMono (match repOf s d with
-      | none => s
-      | some q => deleteRep q (s.modRep n fun N =>
-          { N with parent := match s.reps q with | some Q => Q.parent | none => none })) s := by
-    split
-    · exact SlotsMono.refl _
-    · exact SlotsMono.trans (deleteRep_mono _ _) (SlotsMono.of_eq (by simp))
   split at h
-  · rename_i hw
-    subst hw
-    rw [Option.map_eq_some_iff] at h
-    obtain ⟨W, hW, hW'⟩ := h
-    subst hW'
-    exact ⟨W, hm _ _ hW, rfl, fun h => absurd rfl h, fun _ => rfl⟩
-  · rename_i hw
-    exact ⟨W', hm _ _ h, rfl, fun _ => rfl, fun h => absurd h hw⟩
+  · exact key s rfl h
+  · exact key _ (by simp) (deleteRep_mono _ _ _ _ h)
 
 theorem Blk.repOf_eq {s : State} {v : Nat} {V : SVar} (h : s.slots v = some V) : repOf s v = V.rep := by
   simp [repOf, h]
@@ -506,18 +505,18 @@ theorem asgS_blocked_lem (s : State) (d x : Nat) (D X : SVar) (hD : s.slots d = 
     rw [hXr] at this
     simp only [apply, hX, this, he, Bool.false_eq_true, if_false, hXr]
     have hoth : ∀ w W', w ≠ d →
-        ((exchangeRep d s.nextRep (cloneRep r s)).modSlot d fun D => { D with blocked := X.blocked }).slots w
+        (exchangeRep d s.nextRep ((cloneRep r s).modSlot d fun D => { D with blocked := X.blocked })).slots w
           = some W' → s.slots w = some W' := by
       intro w W' hw h
-      rw [modSlot_slots, if_neg hw] at h
       obtain ⟨W, h1, _, h3, _⟩ := exchangeRep_slots _ _ _ _ _ h
+      rw [modSlot_slots, if_neg hw] at h1
       rw [h3 hw]; simpa using h1
     refine ⟨fun D' hD' => ?_, hoth, fun X' hxd h => ?_⟩
-    · rw [modSlot_slots, if_pos rfl, Option.map_eq_some_iff] at hD'
-      obtain ⟨D1, hD1, hD1'⟩ := hD'
-      obtain ⟨_, _, _, _, h4⟩ := exchangeRep_slots _ _ _ _ _ hD1
+    · obtain ⟨W, h1, h2, _, h4⟩ := exchangeRep_slots _ _ _ _ _ hD'
+      rw [modSlot_slots, if_pos rfl, Option.map_eq_some_iff] at h1
+      obtain ⟨D1, _, hD1'⟩ := h1
       subst hD1'
-      exact ⟨rfl, h4 rfl⟩
+      exact ⟨h2, h4 rfl⟩
     · have := hoth x X' hxd h
       rw [hX] at this; cases this; rfl
 
